@@ -82,10 +82,10 @@ impl<F: Float> TweedieDistribution<F> {
                     if x == F::zero() {
                         *y = F::zero();
                     } else {
-                        *y = F::cast(2.) * (x * y.ln());
+                        *y = x * y.ln();
                     }
                 });
-                Ok(div - y + ypred)
+                Ok((div - y + ypred).mapv(|x| F::cast(2.) * x))
             }
             // Gamma distribution
             // 2 * (log(ypred / y) + (y / ypred) - 1)
